@@ -408,7 +408,8 @@ dateutils_verif_probe(const char *site, long a, long b, long c, long d)
 	} else if (!strcmp(site, "dexpr_shared")) {
 		verif_fail(site, "node-reachable-twice", a, b, c, d);
 	} else if (!strcmp(site, "dexpr_shape")) {
-		verif_fail(site, "not-in-dnf", a, b, c, d);
+		/* a = 1: negation flag left on a node of type b, a = 2: junction without a child */
+		verif_fail(site, a == 1 ? "negation-flag-left-after-simplify" : "junction-without-child", a, b, c, d);
 	}
 	return;
 }
